@@ -39,9 +39,15 @@ def run_model(seqs, variant="current"):
     return out
 
 
+def is_self_extend(op):
+    return op[0] in ("Extend", "IAdd") and op[1] == op[2]
+
+
 def run_real(ops=None, rng=None, maxlen=12, p_invalid=0.12, allow_self_extend=True):
     """Execute a given sequence, or generate one online.  Returns (ops, canonical snapshots, findings)
-    where findings = [(step, key, what, excuse)] from the oracle."""
+    where findings = [(step, key, what, excuse)] from the oracle.  With allow_self_extend=False a given
+    sequence is cut before its first s.extend(s) / s += s (used once that call has been seen not to return:
+    every further instance would cost ALARM_S seconds)."""
     R = K.Real()
     O = K.Oracle(R)
     snaps, finds, done = [], [], []
@@ -55,6 +61,8 @@ def run_real(ops=None, rng=None, maxlen=12, p_invalid=0.12, allow_self_extend=Tr
     while True:
         if queue:
             op = queue.pop(0)
+            if not allow_self_extend and is_self_extend(op):
+                break
         elif gen is not None and len(done) < maxlen:
             op = gen.next()
         else:
@@ -248,8 +256,13 @@ def run(ctx):
                 T.report(ops, mm, viol, source)
         batch = []
 
+    ndiv = 0
     for ops, source in fixed:
-        done, snaps, finds = run_real(ops)
+        done, snaps, finds = run_real(ops, allow_self_extend=allow_self)
+        if snaps and snaps[-1][0][0] == "div":
+            ndiv += 1
+            if ndiv >= 3:
+                allow_self = False      # three witnesses are enough; each further one costs ALARM_S seconds
         batch.append((done, snaps, finds, source))
         if len(batch) >= 400:
             flush()
@@ -260,8 +273,9 @@ def run(ctx):
         L = ctx.rng.randint(4, maxlen)
         done, snaps, finds = run_real(None, rng=ctx.rng, maxlen=L, allow_self_extend=allow_self)
         if snaps and snaps[-1][0][0] == "div":
-            if T.divs >= 1:
-                allow_self = False      # each divergence costs ALARM_S seconds; two witnesses are enough
+            ndiv += 1
+            if ndiv >= 3:
+                allow_self = False
         batch.append((done, snaps, finds, "random"))
         n_rand += 1
         if len(batch) >= 400:
